@@ -222,6 +222,13 @@ def run_falsifier(ctx, check_types):
             k1, k2 = rng.choice(["PK", "Pk", "pk.", "p-k", "pK"]), rng.choice(["ID", "Id", "id-", "i.d", "iD"])
             inputs = [("Root", [{k1: 7, "name": "x", "sub": {k2: 3, "v": 1.5}}, {k1: 8, "name": "y", "sub": {k2: 4, "v": 2.5}}])]
             job["fw"] = rng.choice(["sqlmodel", "sqlmodel", "pydantic"])
+        if i >= len(focus) and i % 12 == 7:
+            # original-name metadata on optional fields with a plain None default (renamed keys), attrs / dataclasses
+            k1, k2 = rng.choice(["userId", "kebab-key", "class", "naïve", "Some Key"]), rng.choice(["firstName", "x.y", "from"])
+            inputs = [("Root", [{k1: 1, k2: "a", "n": 1}, {"n": 2}, {k1: None, k2: "b", "n": 3}])]
+            cmps = []
+            job.update({"fw": rng.choice(["dataclasses", "attrs"]), "meta": True, "postInit": False})
+            job.pop("renderFirst", None)
         reg_i = registry
         if i >= len(focus) and i % 12 == 4:
             # classes whose names would coincide with the string-type names the module imports once date/time types are
